@@ -140,7 +140,9 @@ def judge(case, impl, model):
         if not c or "unavailable" in c:
             continue
         if not (c["eq"] and c["eqRev"]) or c["ne"] or not c["fieldwise"]:
-            if kind == "pickle" and _has_live_extras(case, {"o": impl["states"][0]["o"]}):
+            if kind == "pickle" and impl["states"][0]["nones"] and not c["state"]["nones"]:
+                key = "pickle-not-eq:none-fields-lost"
+            elif kind == "pickle" and _has_live_extras(case, {"o": impl["states"][0]["o"]}):
                 key = "pickle-not-eq:extra-attrs"
             else:
                 key = f"{kind}-not-eq"
